@@ -219,6 +219,13 @@ fn handle(line: &str) -> String {
             }
             "same=true".to_string()
         }
+        "libtest" => {
+            // libtest <name> <hex bytes> <n>: a small function over std APIs (harness/replay/libtest.rs)
+            match libtest::run(a[1], &unhex(a[2]), a[3].parse().unwrap()) {
+                Some(v) => v.iter().map(|x| x.to_string()).collect::<Vec<_>>().join(","),
+                None => "ERR unknown libtest".to_string(),
+            }
+        }
         "history" => {
             // history <hex input> <op,op,..>: ops b (build), m<i> e<i> v<i> k<i> (mode/ecl/version/mask setters) applied to
             // ONE builder; the last build is compared with a fresh builder configured with the final option state
@@ -257,6 +264,9 @@ fn handle(line: &str) -> String {
 
 #[path = "extra.rs"]
 mod extra;
+
+#[path = "libtest.rs"]
+pub mod libtest;
 
 pub fn main() {
     let stdin = std::io::stdin();
